@@ -54,24 +54,25 @@ inductive BisimVerdict (σ τ : Type) where
   | fuel
 
 /-- Breadth-first exploration of the product automaton over the alphabet `alpha`. -/
-def bisimExplore {σ τ : Type} [DecidableEq σ] [DecidableEq τ] (A : Aut σ) (B : Aut τ) (alpha : List Nat) :
-    Nat → List ((σ × τ) × List Nat) → List (σ × τ) → BisimVerdict σ τ
+def bisimExplore {σ τ : Type} [DecidableEq σ] [DecidableEq τ] (rel : Bool → Bool → Bool) (A : Aut σ) (B : Aut τ)
+    (alpha : List Nat) : Nat → List ((σ × τ) × List Nat) → List (σ × τ) → BisimVerdict σ τ
   | _, [], seen => .equiv seen
   | 0, _ :: _, _ => .fuel
   | f + 1, (pq, path) :: todo, seen =>
-    if seen.contains pq then bisimExplore A B alpha f todo seen
-    else if A.acc pq.1 != B.acc pq.2 then .differ path.reverse
+    if seen.contains pq then bisimExplore rel A B alpha f todo seen
+    else if !rel (A.acc pq.1) (B.acc pq.2) then .differ path.reverse
     else
-      bisimExplore A B alpha f
+      bisimExplore rel A B alpha f
         (todo ++ alpha.map fun a => ((A.step pq.1 a, B.step pq.2 a), a :: path)) (pq :: seen)
 
-/-- `seen` contains the start pair, agrees on acceptance, is bisimClosed under steps on every letter of
-    `alpha`, and `alpha` contains every cut point of every state in `seen`. -/
-def bisimClosed {σ τ : Type} [DecidableEq σ] [DecidableEq τ] (A : Aut σ) (B : Aut τ) (alpha : List Nat)
-    (p0 : σ) (q0 : τ) (seen : List (σ × τ)) : Bool :=
+/-- `seen` contains the start pair, satisfies `rel` on acceptance (`==` for equivalence, `→` for
+    inclusion), is closed under steps on every letter of `alpha`, and `alpha` contains every cut
+    point of every state in `seen`. -/
+def bisimClosed {σ τ : Type} [DecidableEq σ] [DecidableEq τ] (rel : Bool → Bool → Bool) (A : Aut σ) (B : Aut τ)
+    (alpha : List Nat) (p0 : σ) (q0 : τ) (seen : List (σ × τ)) : Bool :=
   alpha.contains 0 && seen.contains (p0, q0) &&
   seen.all fun pq =>
-    (A.acc pq.1 == B.acc pq.2) &&
+    rel (A.acc pq.1) (B.acc pq.2) &&
     (A.cuts pq.1).all (alpha.contains ·) &&
     (B.cuts pq.2).all (alpha.contains ·) &&
     alpha.all fun a => seen.contains (A.step pq.1 a, B.step pq.2 a)
@@ -84,17 +85,27 @@ def alphabetOf {σ τ : Type} (A : Aut σ) (B : Aut τ) (p0 : σ) (q0 : τ) : Li
   dedupNat (0 :: (A.cuts p0 ++ B.cuts q0))
 
 /-- The verified checker: `true` only if the two start states accept the same strings. -/
-def autEquiv {σ τ : Type} [DecidableEq σ] [DecidableEq τ] (A : Aut σ) (B : Aut τ) (p0 : σ) (q0 : τ)
-    (fuel : Nat := 4000) : Bool :=
+def autRel {σ τ : Type} [DecidableEq σ] [DecidableEq τ] (rel : Bool → Bool → Bool) (A : Aut σ) (B : Aut τ)
+    (p0 : σ) (q0 : τ) (fuel : Nat := 4000) : Bool :=
   let alpha := alphabetOf A B p0 q0
-  match bisimExplore A B alpha fuel [((p0, q0), [])] [] with
-  | .equiv seen => bisimClosed A B alpha p0 q0 seen
+  match bisimExplore rel A B alpha fuel [((p0, q0), [])] [] with
+  | .equiv seen => bisimClosed rel A B alpha p0 q0 seen
   | _ => false
+
+def relEq (a b : Bool) : Bool := a == b
+def relImp (a b : Bool) : Bool := !a || b
+
+def autEquiv {σ τ : Type} [DecidableEq σ] [DecidableEq τ] (A : Aut σ) (B : Aut τ) (p0 : σ) (q0 : τ)
+    (fuel : Nat := 4000) : Bool := autRel relEq A B p0 q0 fuel
+
+/-- Language inclusion: every string accepted from `p0` is accepted from `q0`. -/
+def autIncl {σ τ : Type} [DecidableEq σ] [DecidableEq τ] (A : Aut σ) (B : Aut τ) (p0 : σ) (q0 : τ)
+    (fuel : Nat := 4000) : Bool := autRel relImp A B p0 q0 fuel
 
 /-- The distinguishing string found by the search, if any. -/
 def autWitness {σ τ : Type} [DecidableEq σ] [DecidableEq τ] (A : Aut σ) (B : Aut τ) (p0 : σ) (q0 : τ)
     (fuel : Nat := 4000) : Option (List Nat) :=
-  match bisimExplore A B (alphabetOf A B p0 q0) fuel [((p0, q0), [])] [] with
+  match bisimExplore relEq A B (alphabetOf A B p0 q0) fuel [((p0, q0), [])] [] with
   | .differ w => some w
   | _ => none
 
